@@ -187,6 +187,8 @@ func resetCaches() {
 	lockedHelperCache = map[*ssaFunc][]int{}
 	fieldOwnerCache = map[string]bool{}
 	globalFieldCache = map[string]ssa.Value{}
+	dynCalleeCache = map[ssa.CallInstruction][]*ssa.Function{}
+	addressTakenFns, addressTakenDone = nil, false
 	quoAtoms = map[string]quoDef{}
 	inlineCache = map[inlineKey]inlineRes{}
 	reachEffCache = map[string]map[*ssaFunc]bool{}
